@@ -281,6 +281,9 @@ var $recv = chan => {
     return f;
 };
 var $close = chan => {
+    if (chan === $chanNil) {
+        $throwRuntimeError("close of nil channel");
+    }
     if (chan.$closed) {
         $throwRuntimeError("close of closed channel");
     }
